@@ -370,11 +370,12 @@ class Interp(ExprMixin):
                 return bool(x)
             return bool(x)
 
-        return {"int": b_int, "float": b_float, "abs": b_abs, "max": b_max, "min": b_min,
-                "isinstance": b_isinstance, "issubclass": b_issubclass, "type": b_type, "print": b_print,
-                "round": b_round, "str": b_str, "getattr": b_getattr, "hasattr": b_hasattr, "sum": b_sum,
-                "range": b_range, "xrange": b_range, "vector": VectorFactory(), "bool": b_bool,
-                "long": b_int, "unicode": str, "basestring": str}
+        self.type_calls = {int: b_int, float: b_float, str: b_str, type: b_type, bool: b_bool}
+        return {"abs": b_abs, "max": b_max, "min": b_min,
+                "isinstance": b_isinstance, "issubclass": b_issubclass, "print": b_print,
+                "round": b_round, "getattr": b_getattr, "hasattr": b_hasattr, "sum": b_sum,
+                "range": b_range, "xrange": b_range, "vector": VectorFactory(),
+                "long": int, "unicode": str, "basestring": str}
 
     # ------------------------------------------------------------------ C coercion
     def default_value(self, t):
